@@ -189,6 +189,15 @@ pub fn run(repo: &str, t: &mut T) {
             ok &= rc2::encrypt(&arr(&k), k.len(), t1, &arr(&p)).to_vec() == c && rc2::decrypt(&arr(&k), k.len(), t1, &arr(&c)).to_vec() == p;
         }
         t.check("rc2 rfc2268 vectors", ok);
+        // the two formulations of the key expansion (RFC loops / index-guarded loops) agree: every T, T1 on a fixed key pattern
+        let key: [u8; 128] = core::array::from_fn(|i| (i as u8).wrapping_mul(73).wrapping_add(29));
+        let mut ok = true;
+        for tl in 1..=128usize {
+            for t1 in 1..=1024usize {
+                ok &= rc2::expand_key(&key, tl, t1) == rc2::expand_key_g(&key, tl, t1);
+            }
+        }
+        t.check("rc2 expand_key == expand_key_g", ok);
     }
     // ---------------- XTEA
     {
